@@ -234,7 +234,7 @@ func init() {
 							q.p = items[r.Intn(len(items))].Point()
 						}
 						q.k = []int{1, 3, 16}[r.Intn(3)]
-						if r.P(1, 60) {
+						if r.P(1, 20) {
 							q.k = 1 << 17 // "everything", said with a huge k
 						}
 						q.maxDist = -1
@@ -324,6 +324,13 @@ func init() {
 					for rep := 0; rep < reps; rep++ {
 						atomic.StoreUint64(&c19yieldPD, yieldPD)
 						quadtree.VerifVisitHook = c19hook
+						bare := rep%2 == 0
+						if bare {
+							// every other repetition runs without the traversal hook: its shared event counter is an atomic, and the
+							// race detector takes atomics as synchronisation, which orders accesses of different goroutines that the
+							// library itself does not order - a race in the library would be hidden by the monitor's own bookkeeping
+							quadtree.VerifVisitHook = nil
+						}
 						spans := make([][]c19span, G)
 						perms := make([][]int, G)
 						for g := 0; g < G; g++ {
@@ -340,12 +347,17 @@ func init() {
 								my := make([]c19span, 0, nq)
 								<-start
 								for _, qi := range perms[g] {
-									e0 := atomic.LoadUint64(&c19events)
+									var e0, e1 uint64
+									if !bare {
+										e0 = atomic.LoadUint64(&c19events)
+									}
 									res := c19run(tree, &qs[qi], pick(&qs[qi], buf, last))
 									if qs[qi].useBuf != 0 && qs[qi].kind >= 2 {
 										last = res
 									}
-									e1 := atomic.LoadUint64(&c19events)
+									if !bare {
+										e1 = atomic.LoadUint64(&c19events)
+									}
 									my = append(my, c19span{g, e0, e1})
 									want := seq[qi]
 									ok := len(res) == len(want)
